@@ -80,6 +80,11 @@ def correspond(ctx):
         state["on"] = False
         sevmcheck.run(ctx, ID, {}, n_scenarios=ctx.scale(24, 600), n_random_inputs=ctx.scale(8, 12),
                       cfgs=[{"symbolic_jump": True}, {"symbolic_jump": True, "solver_timeout_branching": 0}], gen=gen_symjump, corpus=False)
+        # (v) code with symbolic immutables (concrete | PUSH32 <symbolic word> | concrete), jump destinations after the holes
+        from vlib import proggen
+
+        sevmcheck.run(ctx, ID, {}, n_scenarios=ctx.scale(16, 300), n_random_inputs=ctx.scale(6, 12),
+                      cfgs=[{}, {"symbolic_jump": True}], gen=proggen.gen_immutable, corpus=False)
     finally:
         S.Path.check = orig
     stale = coremodel.compare_core(ctx, ctx.scale(60, 1200))
